@@ -86,15 +86,18 @@ def valOf : SolOut → (Nat × List Memory × Cache)
   | .ok v => v
   | _ => (0, [], [])
 
+def errOfRes (r : Nat × SolOut) : Option (Nat × PredError) := match r.2 with | .err e => some (r.1, e) | _ => none
+def okOfRes (r : Nat × SolOut) : Option (Nat × (Nat × List Memory × Cache)) := match r.2 with | .ok v => some (r.1, v) | _ => none
+
 /-- the tail of `check_set_predicates`, on the list of per-solution results -/
 def finishSet (results : List (Nat × SolOut)) : Res SetError (Nat × List (Nat × List Memory) × List Cache) :=
   match (results.find? fun r => r.2.isPanic || r.2.isAbort).map (·.2) with
   | some (Res.panic m) => .panic m
   | some (Res.abort m) => .abort m
   | _ =>
-    let failed := results.filterMap fun r => match r.2 with | .err e => some (r.1, e) | _ => none
+    let failed := results.filterMap errOfRes
     if failed ≠ [] then .err (.failed failed) else
-    let oks := results.filterMap fun r => match r.2 with | .ok v => some (r.1, v) | _ => none
+    let oks := results.filterMap okOfRes
     .ok (oks.foldl (fun g r => satAdd g r.2.1) 0, oks.map fun r => (r.1, r.2.2.1), oks.map fun r => r.2.2.2)
 
 theorem checkSetPredicates_eq (se : SetEnv) (ce : CheckEnv) (sols : List Solution) (mode : RunMode) (caches : List Cache) :
@@ -120,22 +123,22 @@ theorem finishSet_all_ok : ∀ (rs : List (Nat × SolOut)), (∀ x ∈ rs, ∃ v
     intro x hx
     obtain ⟨v, hv⟩ := h x hx
     simp [hv, Res.isPanic, Res.isAbort]
-  have h2 : (rs.filterMap fun r => match r.2 with | .err e => some (r.1, e) | _ => none) = [] := by
+  have h2 : rs.filterMap errOfRes = [] := by
     rw [List.filterMap_eq_nil_iff]
     intro x hx
     obtain ⟨v, hv⟩ := h x hx
-    simp [hv]
-  have h3 : (rs.filterMap fun r => match r.2 with | .ok v => some (r.1, v) | _ => none) = rs.map fun x => (x.1, valOf x.2) := by
+    simp [errOfRes, hv]
+  have h3 : rs.filterMap okOfRes = rs.map fun x => (x.1, valOf x.2) := by
     rw [← List.filterMap_eq_map]
     have gen : ∀ (l : List (Nat × SolOut)), (∀ x ∈ l, ∃ v, x.2 = .ok v) →
-        (l.filterMap fun r => match r.2 with | .ok v => some (r.1, v) | _ => none) = l.filterMap (some ∘ fun x => (x.1, valOf x.2)) := by
+        l.filterMap okOfRes = l.filterMap (some ∘ fun x => (x.1, valOf x.2)) := by
       intro l
       induction l with
       | nil => intro _; rfl
       | cons a l ih =>
         intro hl
         obtain ⟨v, hv⟩ := hl a (by simp)
-        simp only [List.filterMap_cons, hv, Function.comp, valOf]
+        simp only [List.filterMap_cons, okOfRes, hv, Function.comp, valOf]
         rw [ih (fun x hx => hl x (by simp [hx]))]
         rfl
     exact gen rs h
@@ -151,11 +154,11 @@ theorem finishSet_ok_inv (rs : List (Nat × SolOut)) (x : Nat × List (Nat × Li
   | err e =>
     exfalso
     unfold finishSet at h
-    have hf : (rs.filterMap fun r => match r.2 with | .err e => some (r.1, e) | _ => none) ≠ [] := by
+    have hf : rs.filterMap errOfRes ≠ [] := by
       intro hn
       rw [List.filterMap_eq_nil_iff] at hn
       have := hn y hy
-      simp [hr] at this
+      simp [errOfRes, hr] at this
     split at h
     · cases h
     · cases h
